@@ -151,8 +151,61 @@ class Ctx:
         return None
 
     # ---- finish ----------------------------------------------------------------
+    # ---- restructured functions -------------------------------------------------------------
+    def drifted(self):
+        """functions whose body is no longer the one the rules were confirmed against, because code was moved
+        between it and functions that did not exist then: {name: reason}.  The rules read such a function with
+        the new helper's body presented at the call (inline.py); where that presentation and a rule disagree
+        the rule's verdict is not trusted either way."""
+        out = {}
+        try:
+            from .prog import _anchors
+            A = _anchors()
+            progs = [p for p in (self.P, self._PD) if p is not None]
+            for P in progs:
+                for u, d in P.units.items():
+                    if u.startswith("fixture:"):
+                        continue
+                    known = set(k.split(":", 1)[1] for k in A["functions"] if k.startswith(u + ":")) if A else None
+                    for fd in d.get("functions", []):
+                        why = []
+                        if fd.get("inlined"):
+                            why.append("code moved into new helper(s) %s" % ", ".join(sorted(set(fd["inlined"]))[:4]))
+                        if known is not None:
+                            if fd["name"] not in known:
+                                why.append("function did not exist when the rules were confirmed")
+                            else:
+                                newcal = sorted(set(nd.get("callee") for nd in fd["nodes"] if nd.get("k") == "Call" and nd.get("callee") and "%s" % nd.get("callee") not in known and any(g["name"] == nd.get("callee") for g in d.get("functions", []))))
+                                if newcal:
+                                    why.append("calls new function(s) %s" % ", ".join(newcal[:4]))
+                        if why:
+                            out[fd["name"]] = "; ".join(why)
+        except Exception as e:      # the gate must never turn a verdict into a crash
+            self.notes.append("drift gate unavailable: %r" % (e,))
+        return out
+
+    def _gate_restructured(self):
+        if os.environ.get("SS_NO_DRIFT_GATE") or not self.violations:
+            return
+        D = self.drifted()
+        if not D:
+            return
+        keep = []
+        for v in self.violations:
+            fn = v["key"].split(":")[0]
+            if fn in D:
+                self.rules[v["rule"]]["viol"] -= 1
+                for s_ in self.rules[v["rule"]]["samples"]:
+                    if s_.get("key") == v["key"] and s_.get("result") == "VIOLATION":
+                        s_["result"] = "unconfirmed (restructured function)"
+                self.incomplete.append("%s was restructured (%s): rule %s instance %s at %s cannot be confirmed on the restructured code and is not reported as a violation [%s]" % (fn, D[fn], v["rule"], v["key"], v["where"], v["what"][:160]))
+            else:
+                keep.append(v)
+        self.violations = keep
+
     def finish(self):
         wall = time.time() - self.t0
+        self._gate_restructured()
         for rid in self.order:
             r = self.rules[rid]
             if r["n"] < r["floor"]:
